@@ -53,7 +53,7 @@ def apply_regions(obls: list[Obl], findings: list[dict]) -> None:
 
 def run_e1(prop_id: str, tier: str, seed: int, obls: list[Obl], *, functions_encoded: list[str], stubs: list[str],
            assumptions: list[str], rule: str, bounds: dict, jobs: int = 16, extra_coverage: dict | None = None,
-           pre_violations: list[dict] | None = None, spurious_inconclusive: bool = False, max_spurious_rounds: int = MAX_SPURIOUS_ROUNDS) -> int:
+           pre_violations: list[dict] | None = None, spurious_inconclusive: bool = True, max_spurious_rounds: int = MAX_SPURIOUS_ROUNDS) -> int:
     t0 = time.time()
     findings = kfmod.load(prop_id)
     apply_regions(obls, findings)
